@@ -99,7 +99,7 @@ func cliParse(c *core.Ctx, in []byte) (acc bool, abn string, res *runner.Result)
 	return cliParsePath(c, in, hashBytes(in)%cliPaths)
 }
 
-const cliPaths = 12
+const cliPaths = 16
 
 // cliParsePath asks `crd text parse` about the text over the given input path.
 func cliParsePath(c *core.Ctx, in []byte, h uint32) (acc bool, abn string, res *runner.Result) {
@@ -180,6 +180,52 @@ func cliParsePath(c *core.Ctx, in []byte, h uint32) (acc bool, abn string, res *
 			}
 		}
 		res = run(c, in, "text", "parse")
+	case 12:
+		// -o naming something that is not a regular file: the standard output itself
+		res = run(c, in, "text", "parse", "-o", []string{"/dev/stdout", "/dev/fd/1"}[hashBytes(in)/16%2])
+	case 13:
+		// a standard output that takes nothing (/dev/full): however small the tree, the run has failed
+		ref := run(c, in, "text", "parse")
+		if ref.WallKill || ref.StartErr != nil || !ref.OK() || abnormal(ref) != "" || len(ref.Stdout) == 0 {
+			res = ref
+			break
+		}
+		full := c.Crd.Run(runner.Opt{Stdin: stdinIn, Redirect: ">/dev/full"}, "text", "parse")
+		if full.WallKill || full.StartErr != nil {
+			return false, "infra", full
+		}
+		if a := abnormal(full); a != "" {
+			return false, a + " (standard output on /dev/full)", full
+		}
+		if full.OK() {
+			return false, fmt.Sprintf("reports success although none of the %d bytes of the tree could be written (standard output on /dev/full)", len(ref.Stdout)), full
+		}
+		res = ref
+	case 14:
+		// --debug: log lines belong on the standard error, the tree is the tree (only judged where the text is accepted:
+		// the parser trace of a failing parse is known finding F-10)
+		ref := run(c, in, "text", "parse")
+		if ref.WallKill || ref.StartErr != nil || !ref.OK() || abnormal(ref) != "" {
+			res = ref
+			break
+		}
+		res = run(c, in, "text", "parse", "--debug")
+		if res.OK() && !bytes.Equal(res.Stdout, ref.Stdout) {
+			return false, fmt.Sprintf("prints %d bytes with --debug and %d without (%s)", len(res.Stdout), len(ref.Stdout), firstLineDiff(ref.Stdout, res.Stdout)), res
+		}
+	case 15:
+		// -o /dev/null: nothing to read back, but the verdict is the verdict
+		null := run(c, in, "text", "parse", "--output=/dev/null")
+		res = run(c, in, "text", "parse")
+		if null.WallKill || null.StartErr != nil {
+			return false, "infra", null
+		}
+		if a := abnormal(null); a != "" {
+			return false, a + " (--output=/dev/null)", null
+		}
+		if null.OK() != res.OK() {
+			return false, fmt.Sprintf("accepts=%v with --output=/dev/null and accepts=%v printing to the standard output", null.OK(), res.OK()), null
+		}
 	default:
 		res = run(c, nil, "text", "parse", c.Scratch.File("c04.txt", in))
 	}
